@@ -69,3 +69,43 @@ pub fn schoolbook(f: &Poly, g: &Poly) -> [i64; 256] {
             if k < 256 { r[k] = (r[k] + p) % Q; } else { r[k - 256] = modq(r[k - 256] - p); } } }
     r
 }
+
+// ---- the harness's own samplers (FIPS 204 Algorithms 29-31, 34), used to SEARCH for rare inputs
+// (many XOF blocks consumed, many rejections) and to cross-check the library at scale; every
+// disagreement, and the rarest agreeing cases, are re-judged by TLC from Sampling.tla.
+use sha3::digest::{ExtendableOutput, Update, XofReader};
+pub fn rej_ntt_poly(seed: &[u8]) -> (Poly, usize) {
+    let mut h = sha3::Shake128::default(); h.update(seed); let mut x = h.finalize_xof();
+    let (mut a, mut j, mut used) = ([0i32; 256], 0usize, 0usize);
+    while j < 256 { let mut b = [0u8; 3]; x.read(&mut b); used += 3;
+        let z = (((b[2] & 0x7f) as i32) << 16) | ((b[1] as i32) << 8) | b[0] as i32; if (z as i64) < Q { a[j] = z; j += 1; } }
+    (a, used)
+}
+pub fn rej_bounded_poly(eta: i32, seed: &[u8]) -> (Poly, usize) {
+    let mut h = sha3::Shake256::default(); h.update(seed); let mut x = h.finalize_xof();
+    let (mut a, mut j, mut used) = ([0i32; 256], 0usize, 0usize);
+    let half = |b: u8| -> Option<i32> { if eta == 2 && b < 15 { Some(2 - (b % 5) as i32) } else if eta == 4 && b < 9 { Some(4 - b as i32) } else { None } };
+    while j < 256 { let mut z = [0u8; 1]; x.read(&mut z); used += 1;
+        if let Some(v) = half(z[0] & 15) { a[j] = v; j += 1; }
+        if let Some(v) = half(z[0] >> 4) { if j < 256 { a[j] = v; j += 1; } } }
+    (a, used)
+}
+pub fn sample_in_ball(tau: usize, ct: &[u8]) -> (Poly, usize) {
+    let mut h = sha3::Shake256::default(); h.update(ct); let mut x = h.finalize_xof();
+    let mut s = [0u8; 8]; x.read(&mut s);
+    let (mut c, mut used) = ([0i32; 256], 8usize);
+    for i in (256 - tau)..256 {
+        let mut j = [0u8; 1]; x.read(&mut j); used += 1;
+        while j[0] as usize > i { x.read(&mut j); used += 1; }
+        c[i] = c[j[0] as usize];
+        let idx = i + tau - 256;
+        c[j[0] as usize] = 1 - 2 * (((s[idx / 8] >> (idx % 8)) & 1) as i32);
+    }
+    (c, used)
+}
+pub fn expand_mask_poly(gamma1: i32, rho: &[u8], n: u16) -> Poly {
+    let c = if gamma1 == 1 << 17 { 18 } else { 20 };
+    let mut h = sha3::Shake256::default(); h.update(rho); h.update(&n.to_le_bytes());
+    let mut v = vec![0u8; 32 * c]; h.finalize_xof().read(&mut v);
+    core::array::from_fn(|i| { let mut t = 0i32; for k in 0..c { let bit = i * c + k; t |= (((v[bit / 8] >> (bit % 8)) & 1) as i32) << k; } gamma1 - t })
+}
